@@ -158,7 +158,7 @@ def run_job(args):
         try:
             labs = sub.body(case)
         except Violation as v:
-            if hooks.unconverged_explicit():
+            if hooks.unconverged_explicit() and not getattr(v, "exact", False):
                 # the caller-chosen solver hit its iteration limit and dreye returned the unconverged iterate (known finding class)
                 v.label = v.label + ":explicit-solver-unconverged"
             if v.label in muted:
@@ -295,7 +295,7 @@ def run_replay_file(prop, path):
     try:
         sub.body(rep["case"])
     except Violation as v:
-        if hooks.unconverged_explicit():
+        if hooks.unconverged_explicit() and not getattr(v, "exact", False):
             v.label = v.label + ":explicit-solver-unconverged"
         k = match_known(load_known(prop.pid), prop, sub.name, v.label, rep["case"])
         if k is not None:
